@@ -23,7 +23,7 @@ DECIDING = ['stored_vs_reinferred', 'answer_valid', 'answers_agree']
 ASSUMPTIONS = ['(a) 1e-7*total, (b) sums rtol min(1e-6, max(1e-9, 256*eps*max|parameter|)) and negatives >= -1e-12*total, (c) 1e-7*total',
                'RDA / IG are driven with projections of >= 2 cells and not with all-zero query matrices (scipy eigsh refuses a 1x1 operator and a zero operator); MD gets both']
 PLAN = {
-    'quick': dict(cases=240, budget_s=75, case_timeout=300, min_cases=60),
+    'quick': dict(cases=240, budget_s=120, case_timeout=300, min_cases=40),
     'thorough': dict(cases=4000, budget_s=900, case_timeout=600, min_cases=666),
 }
 CLASSES = ['empty', 'uniform_consistent', 'zero_queries', 'ordinary', 'ordinary', 'boundary', 'single_attr', 'precise']
